@@ -78,7 +78,7 @@ pub fn run(ctx: &mut Ctx) {
 		ctx.add(fam);
 	}
 	if ctx.wants("G_values") {
-		let n = ctx.pick(100_000, 1_500_000);
+		let n = ctx.pick(300_000, 1_500_000);
 		let fam = Fam::new("G_values", "proptest: random nested values (all string classes, arbitrary number spellings up to 400 digits, duplicate and empty keys), built via from_vec or push; non-trivial = a string needing care (control, quote, backslash, DEL, U+2028, non-BMP) or nesting >= 2", false);
 		let fam = run_proptest(
 			ctx,
